@@ -115,6 +115,21 @@ func u2ip(u uint32) net.IP {
 	return b
 }
 
+// probeIP renders the address in one of the forms a lookup may be given: 4-byte, 16-byte
+// (IPv4-mapped, what net.ParseIP returns). form 2 is a genuine IPv6 address that ends in the same
+// four bytes: no IPv4 range covers it, only 0.0.0.0/0 - which matches everything - does.
+func probeIP(u uint32, form int) net.IP {
+	switch form {
+	case 1:
+		return u2ip(u).To16()
+	case 2:
+		b := net.IP{0x20, 0x01, 0x0d, 0xb8, 0, 0, 0, 0, 0, 0, 0, 0, 0, 0, 0, 0}
+		binary.BigEndian.PutUint32(b[12:], u)
+		return b
+	}
+	return u2ip(u)
+}
+
 func mask(ones int) uint32 {
 	if ones == 0 {
 		return 0
@@ -161,6 +176,21 @@ func stableAddr(r *rand.Rand) uint32 {
 	return 20<<24 | uint32(r.Intn(nStable))<<16 | uint32(r.Intn(65536))
 }
 func neverAddr(r *rand.Rand) uint32 { return 30<<24 | uint32(r.Intn(1<<24)) }
+
+// runCase adds one more stable range, 128.0.0.0/1 (the shortest prefix that is not match-all), and
+// also probes the bottom of the address space, which nothing ever covers.
+func stableAddrWide(r *rand.Rand) uint32 {
+	if r.Intn(8) == 0 {
+		return 1<<31 | uint32(r.Int31())
+	}
+	return stableAddr(r)
+}
+func neverAddrWide(r *rand.Rand) uint32 {
+	if r.Intn(8) == 0 {
+		return uint32(r.Intn(3)) * uint32(r.Intn(1<<16)) // 0.0.0.0 in a third of these, else 0.0.x.y / 0.1.x.y
+	}
+	return neverAddr(r)
+}
 
 // runSwitch: see Case.Switch.
 func runSwitch(cs Case, st *stats) (key, expected, observed string) {
@@ -419,8 +449,11 @@ func runCase(cs Case, st *stats) (key, expected, observed string) {
 			return "setup", "nil", err.Error()
 		}
 	}
+	if err := f.Add(cidr(1<<31|0x00c0ffee, 1)); err != nil {
+		return "setup", "nil", err.Error()
+	}
 	var clock, adds, writesInFlight atomic.Uint64
-	adds.Store(nStable)
+	adds.Store(nStable + 1)
 	var mig [2]atomic.Uint64 // logical interval of the Add call that makes the filter leave list mode
 	var stop atomic.Bool
 	var wg, rg sync.WaitGroup
@@ -521,7 +554,7 @@ func runCase(cs Case, st *stats) (key, expected, observed string) {
 				probe := p.ip | (^mask(ones) & r.Uint32())
 				want := m.contains(probe)
 				c0 := stamp()
-				got := f.Contains(u2ip(probe))
+				got := f.Contains(probeIP(probe, i&1))
 				c1 := stamp()
 				res.self++
 				if got != want {
@@ -550,9 +583,9 @@ func runCase(cs Case, st *stats) (key, expected, observed string) {
 				res.probes++
 				inflight := writesInFlight.Load() > 0
 				if r.Intn(2) == 0 {
-					a := stableAddr(r)
+					a := stableAddrWide(r)
 					c0 := stamp()
-					got := f.Contains(u2ip(a))
+					got := f.Contains(probeIP(a, int(res.probes>>1&1)))
 					c1 := stamp()
 					if !got {
 						res.key, res.exp, res.ob = "stable-missed", fmt.Sprintf("Contains(%s)=true: its /16 is present for the whole call", u2ip(a)),
@@ -563,15 +596,18 @@ func runCase(cs Case, st *stats) (key, expected, observed string) {
 						res.intervals = append(res.intervals, [2]uint64{c0, c1})
 					}
 				} else {
-					a := neverAddr(r)
+					a, form := neverAddrWide(r), int(res.probes>>1%3)
+					if form == 2 && r.Intn(2) == 0 {
+						a = stableAddrWide(r) // as the tail of an IPv6 address even a stable address is covered by nothing
+					}
 					c0 := stamp()
-					got := f.Contains(u2ip(a))
+					got := f.Contains(probeIP(a, form))
 					c1 := stamp()
 					if got {
 						if cs.NoClock && cs.Toggler {
 							continue // cannot be judged without the clock
 						}
-						res.susp = append(res.susp, suspicious{c0, c1, fmt.Sprintf("Contains(%s)=true: no range ever added covers it", u2ip(a))})
+						res.susp = append(res.susp, suspicious{c0, c1, fmt.Sprintf("Contains(%s)=true: no range ever added covers it", probeIP(a, form))})
 					}
 				}
 				if inflight || writesInFlight.Load() > 0 {
@@ -669,25 +705,25 @@ func runCase(cs Case, st *stats) (key, expected, observed string) {
 	r := rand.New(rand.NewSource(cs.Seed))
 	for w := range wr {
 		for p := range wr[w].model {
-			for _, a := range []uint32{p.ip, p.ip | ^mask(p.ones)} {
-				if !f.Contains(u2ip(a)) {
+			for k, a := range []uint32{p.ip, p.ip | ^mask(p.ones)} {
+				if !f.Contains(probeIP(a, k)) {
 					return "final-missing", fmt.Sprintf("after the run Contains(%s)=true (writer %d added %s/%d last)", u2ip(a), w, u2ip(p.ip), p.ones), "false"
 				}
 			}
 		}
 		for k := 0; k < 300; k++ {
 			a := uint32(40+w)<<24 | uint32(r.Intn(1<<24))
-			if got, want := f.Contains(u2ip(a)), wr[w].model.contains(a); got != want {
+			if got, want := f.Contains(probeIP(a, k&1)), wr[w].model.contains(a); got != want {
 				return "final-diff", fmt.Sprintf("after the run Contains(%s)=%v by writer %d's own operation order", u2ip(a), want, w), fmt.Sprint(got)
 			}
 		}
 	}
 	for k := 0; k < 300; k++ {
-		if !f.Contains(u2ip(stableAddr(r))) {
-			return "final-stable", "stable ranges present", "false"
+		if a := stableAddrWide(r); !f.Contains(probeIP(a, k&1)) {
+			return "final-stable", "stable ranges present: Contains(" + probeIP(a, k&1).String() + ")=true", "false"
 		}
-		if f.Contains(u2ip(neverAddr(r))) {
-			return "final-never", "never-added addresses absent after all 0.0.0.0/0 were removed", "true"
+		if a := neverAddrWide(r); f.Contains(probeIP(a, k%3)) {
+			return "final-never", "never-added addresses absent after all 0.0.0.0/0 were removed: Contains(" + probeIP(a, k%3).String() + ")=false", "true"
 		}
 	}
 	return "", "", ""
